@@ -1,9 +1,10 @@
 (* Model of the memory-mapped views: src/serialize.rs (MappedSlice<T>, MappedBytes, MappedStr,
    MappedOption<T>), src/raw_vector.rs (RawVectorMapper), src/int_vector.rs (IntVectorMapper).
    The mapped file is a [list N] of 8-byte elements; offsets and lengths are in elements.
-   Every `new` follows the Rust checks in their order and in the arithmetic the Rust uses: the caller's
-   offset and the length element READ FROM THE FILE enter `offset + 1 + len * T::elements()` etc. through
-   the mode-dependent uadd/umul (Debug: overflow panics, Release: wraps). A view is (file, offset, declared
+   Every `new` follows the Rust checks in their order and in the arithmetic the Rust uses, through the
+   mode-dependent uadd/usub/umul/udiv (Debug: overflow panics, Release: wraps): the caller's offset enters
+   `offset + 1`, `offset + 2`, `map.len() - offset - 1`; the length element READ FROM THE FILE is only compared
+   (`len > (map.len() - offset - 1) / T::elements()`, `len > words_to_bytes(map.len() - offset - 1)`). A view is (file, offset, declared
    length): what `slice::from_raw_parts(ptr, len)` builds without looking at the mapping; reading through a
    view whose declared extent is not backed by the file is [OOB SITE_MAP_WORD]. No proofs here. *)
 From Coq Require Import NArith List Bool.
@@ -94,12 +95,25 @@ Record mslice := mkms { ms_file : list N; ms_off : N; ms_len : N }.
 Definition ms_new (m : mode) (elems : N) (file : list N) (offset : N) : vres mslice :=
   if lenN file <=? offset then VErr UnexpectedEof else
   let+ len := vlift (idx file offset) in
-  (* offset + 1 + len * T::elements() > map.len() *)
+  (* len > (map.len() - offset - 1) / T::elements() : the length is compared, never multiplied *)
+  let+ a := vlift (usub m (lenN file) offset) in
+  let+ b := vlift (usub m a 1) in
+  let+ q := vlift (udiv m b elems) in
+  if q <? len then VErr UnexpectedEof else
+  (* &slice[offset + 1 ..] *)
+  let+ s1 := vlift (uadd m offset 1) in
+  if lenN file <? s1 then VPanic PIndex else
+  VOk (mkms file offset len).
+
+(* the check before the repair 5f925c7 (`offset + 1 + len * T::elements() > map.len()`);
+   kept only for C13_len_overflow_old_refuted *)
+Definition ms_new_old (m : mode) (elems : N) (file : list N) (offset : N) : vres mslice :=
+  if lenN file <=? offset then VErr UnexpectedEof else
+  let+ len := vlift (idx file offset) in
   let+ o1 := vlift (uadd m offset 1) in
   let+ sz := vlift (umul m len elems) in
   let+ e := vlift (uadd m o1 sz) in
   if lenN file <? e then VErr UnexpectedEof else
-  (* &slice[offset + 1 ..] *)
   let+ s1 := vlift (uadd m offset 1) in
   if lenN file <? s1 then VPanic PIndex else
   VOk (mkms file offset len).
@@ -127,7 +141,20 @@ Record mbytes := mkmb { mb_file : list N; mb_off : N; mb_len : N }.
 Definition mb_new (m : mode) (file : list N) (offset : N) : vres mbytes :=
   if lenN file <=? offset then VErr UnexpectedEof else
   let+ len := vlift (idx file offset) in
-  (* offset + 1 + bits::bytes_to_words(len) > map.len() *)
+  (* len > bits::words_to_bytes(map.len() - offset - 1) *)
+  let+ a := vlift (usub m (lenN file) offset) in
+  let+ b := vlift (usub m a 1) in
+  let+ w := vlift (f_words_to_bytes m b) in
+  if w <? len then VErr UnexpectedEof else
+  let+ s1 := vlift (uadd m offset 1) in
+  if lenN file <? s1 then VPanic PIndex else
+  VOk (mkmb file offset len).
+
+(* the check before the repair 5f925c7 (`offset + 1 + bits::bytes_to_words(len) > map.len()`);
+   kept only for C13_len_overflow_old_refuted *)
+Definition mb_new_old (m : mode) (file : list N) (offset : N) : vres mbytes :=
+  if lenN file <=? offset then VErr UnexpectedEof else
+  let+ len := vlift (idx file offset) in
   let+ o1 := vlift (uadd m offset 1) in
   let+ w := vlift (f_bytes_to_words m len) in
   let+ e := vlift (uadd m o1 w) in
